@@ -81,11 +81,27 @@ def execute(case):
       root = fdl.Config(graphs.node_fn(1, 0), p=root)
     before = graphs.canon(root)
     before_build = build_canon(root)
+    req, enc = graphs.encode(root, **ENC)
+    n_orig = len(enc.objs)
     try:
       cp = make_copy(kind, root)
     except Exception as e:
       return {'copy_raised': type(e).__name__, 'kind': kind}, None
     obs = {'kind': kind}
+    # model correspondence: encode the copy on top of the original's encoding (objects shared
+    # with the original keep their index, new objects are numbered from n_orig on)
+    enc2 = graphs.Encoder(**ENC)
+    enc2.objs, enc2.ids, enc2.keep = list(enc.objs), dict(enc.ids), list(enc.keep)
+    try:
+      enc2.val(cp)
+      obs['m_heap'] = [project_obj(o) for o in enc2.objs]
+    except Exception as e:
+      obs['m_heap'] = f'encoding the copy raised {type(e).__name__}'
+    req.update({'p': 'graph', 'q': ['deepcopy' if kind in DEEP else 'shallow_copy']})
+    if kind == 'cast_partial':
+      req['bk'] = 'Partial'
+    elif kind == 'cast_config':
+      req['bk'] = 'Config'
     c_orig, c_copy = graphs.canon(root), graphs.canon(cp)
     if kind == 'cast_partial':
       c_copy = json.loads(json.dumps(c_copy))
@@ -124,7 +140,12 @@ def execute(case):
           v['__new__'] = 1
     obs['orig_unchanged'] = graphs.canon(root) == before
     obs['orig_build_unchanged'] = build_canon(root) == before_build
-    return obs, None
+    try:
+      obs['m_orig_after'] = [project_obj(o) for o in graphs.encode(root, **ENC)[0]['objs']]
+    except Exception as e:
+      obs['m_orig_after'] = f'encoding raised {type(e).__name__}'
+    obs['n_orig'] = n_orig
+    return obs, req
   # flat stage
   fn = targets.make_fn(case['sig'])
   try:
@@ -147,6 +168,23 @@ def execute(case):
   return out, req
 
 
+def _copied_by_reference(x):
+  """Values copy.deepcopy / pickle hand back as they are (or as an indistinguishable immutable):
+  tuples of immutables, functions, classes."""
+  import types
+  return graphs.is_internable(x) or isinstance(x, (type, types.FunctionType, types.BuiltinFunctionType))
+
+
+# default objects belong to the callable, not to the configuration: they are not part of a copy
+ENC = dict(with_defaults=False, atom_pred=_copied_by_reference)
+
+
+def project_obj(o):
+  """The fields Driver.Graph.heapJson reports."""
+  return {'k': graphs.KIND_NAME.get(o['k'], o['k']), 'fn': o.get('fn', o.get('t', '')), 'bk': o.get('bk', ''),
+          'ch': o['ch'], 'tags': o.get('tags', [])}
+
+
 def build_canon(c):
   del targets.LOG[:]
   try:
@@ -158,6 +196,15 @@ def build_canon(c):
 def compare(real, model):
   if model is None or 'copy_raised' in real:
     return []
+  if 'm_heap' in real:
+    mh = model.get('deepcopy', model.get('shallow_copy'))
+    diffs = []
+    if real['m_heap'] != mh:
+      diffs.append(('copy: heap after the copy (original + new objects)', real['m_heap'], mh))
+    # the model's original region is unchanged by anything done to the copy
+    if real['m_orig_after'] != (mh or [])[:real['n_orig']]:
+      diffs.append(('original after editing the copy', real['m_orig_after'], (mh or [])[:real['n_orig']]))
+    return diffs
   fields = [f for f in FIELDS if not (real['kind'] == 'cast_partial' and f == 'build')]
   return argstore.diff_fields(real, model, fields)
 
@@ -211,7 +258,7 @@ def nontrivial(case, real):
 def run(tier):
   return family.run_check(
       'C07', tier, lean_module='C07', cases=cases, execute=execute, compare=compare,
-      oracle=oracle, nontrivial=nontrivial, widen=None, normalise_model=argstore.norm_model,
+      oracle=oracle, nontrivial=nontrivial, widen=None, normalise_model=lambda m: argstore.norm_model(m) if 'init' in m else m,
       time_budget=150 if tier == 'quick' else 1500,
       extra_coverage={'rule': 'stage A: one Buildable (random signature / constructor arguments incl. '
                       'TaggedValues) x copy kind in {deepcopy, pickle, deepcopy_with, copy, copy_with, '
